@@ -1,5 +1,6 @@
 """C18 — auto-populated request ids obey AIP-4235 at generation time and at call time."""
 import json
+import os
 import random
 import re
 import urllib.parse
@@ -27,7 +28,7 @@ UUID4 = re.compile(r"^[0-9a-f]{8}-[0-9a-f]{4}-4[0-9a-f]{3}-[89ab][0-9a-f]{3}-[0-
 def floors(tier):
     k = 1 if tier == "quick" else 6
     return {"rejections_checked": (12 if tier == "quick" else 50), "calls_judged": 800 * k, "populated_observed": 500 * k, "caller_value_kept": 300 * k,
-            "explicit_empty_optional": 80 * k, "transport:rest": 200 * k, "transport:aio": 250 * k, "unlisted_method_calls": 60 * k}
+            "explicit_empty_optional": 80 * k, "transport:rest": 200 * k, "transport:aio": 250 * k, "unlisted_method_calls": 60 * k, "controls_accepted": 15}
 
 
 def plan(seed, tier):
@@ -50,11 +51,19 @@ def run_case(case):
     req, g, lib = pipeline.build_and_generate(api, scratch)
     if case["violation"]:
         viol = []
+        # control: the same API without the planted entry is accepted — otherwise a rejection says nothing about the planted entry
+        rng_c = random.Random(case["seed"])
+        ctl = apigen.autopop_api(rng_c, "u%d" % (case["seed"] % 100000), violation=case["violation"], plant=False)
+        sc2 = os.path.join(scratch, "control")
+        os.makedirs(sc2, exist_ok=True)
+        _rq, gc_, _lb = pipeline.build_and_generate(ctl, sc2)
+        if not gc_.ok:
+            return {"verdict": "inconclusive", "why": f"control without the planted entry is rejected too: {gc_.exc_type}: {(gc_.exc_msg or '')[:200]}"}
         if g.ok:
             viol.append({"clause": "invalid-settings-accepted", "detail": {"violation": case["violation"]}, "mech": {"violation": case["violation"]}})
         elif "MethodSettingsError" not in (g.exc_type or ""):
             viol.append({"clause": "rejection-not-methodsettingserror", "detail": g.failure(), "mech": {"violation": case["violation"]}})
-        return {"verdict": "violated" if viol else "held", "violations": viol, "evaluations": 1, "counters": {"rejections_checked": 1},
+        return {"verdict": "violated" if viol else "held", "violations": viol, "evaluations": 1, "counters": {"rejections_checked": 1, "controls_accepted": 1},
                 "nontrivial_sigs": [] if viol else ["rejected|" + case["violation"]],
                 "sample": {"violation": case["violation"], "error": f"{g.exc_type}: {(g.exc_msg or '')[:160]}"}}
     if not g.ok:
